@@ -3,10 +3,11 @@
 cd /verif
 python3 tools/seed_import2.py "$@" | grep -c staged
 ids=""
-for ID in "$@"; do for k in 4 5 6; do [ -d seeded/$ID-m$k ] && ids="$ids $ID-m$k"; done; done
+KS=${KS:-"4 5 6"}
+for ID in "$@"; do for k in $KS; do [ -d seeded/$ID-m$k ] && ids="$ids $ID-m$k"; done; done
 python3 tools/reconfirm.py -j 5 $ids | tail -5
 python3 tools/seed_import2.py --prune
-for ID in "$@"; do for k in 4 5 6; do
+for ID in "$@"; do for k in $KS; do
   [ -d seeded/$ID-m$k ] || continue
   out=$(tools/devmut.sh /verif/seeded/$ID-m$k/patch.diff $ID 2>&1)
   if echo "$out" | grep -q "^VIOLATION"; then echo "$ID-m$k DETECTED $(echo "$out" | grep -c '^VIOLATION')"; else echo "$ID-m$k MISSED :: $(echo "$out" | tail -1)"; fi
